@@ -33,7 +33,8 @@ P = {'id': 'C03',
               'dictzip_refines_spec',
               'dictzip_history_refines_spec',
               'dictzip_removed_not_served',
-              'dictzip_standins_lawful'],
+              'dictzip_standins_lawful',
+              'plain_id_wraparound_refuted'],
  'trusted': ['modelled (M+S): src/blob_store/memory.rs; src/blob_store/mixed_len.rs (bitmap rank as count_occ-style spec rank, UintVecMin0 offsets at '
              'value level); src/blob_store/zip_offset_builder.rs + zip_offset.rs + sorted_uint_vec.rs (definitions, bit-exact file image compared on every run); '
              'src/blob_store/simple_zip.rs and zero_length.rs (definitions)',
